@@ -19,6 +19,12 @@
     implementation caches the resolved function object in place afterwards (`cacheAll`).
     `evalCode` evaluates code against a `Store` of cells; `runC` is the top-level loop.
 
+  Definitions carry a lambda list (`Sig`: required, `&optional`, `&key` with constant defaults) and
+  `&aux` variables whose init *forms* are code evaluated on every call (`evalAux`); the mechanism keeps
+  them as list forms converted on every call (`embedAux`). `undef f` is `fmakunbound`: the name is
+  removed from the table; in the mechanism the name keeps its cell and the cell becomes the placeholder
+  again, so callers compiled before, between and after a later `defun` all reach the new definition.
+
   The theorems (Theorems/C08.lean) show that the mechanism refines the specification for every
   history, and that the specification is independent of definition order.
 
@@ -33,6 +39,7 @@ inductive Val where
   | nil
   | t
   | sym (s : String)      -- the value of a `defun` form: the function's name
+  | kw (k : String)       -- a keyword `:k`
   deriving DecidableEq, Repr
 
 inductive Err where
@@ -67,6 +74,7 @@ def primApply : Prim → Val → Val → Out
 
 inductive Expr where
   | const (n : Int)
+  | kw (k : String)        -- a keyword argument marker `:k` (evaluates to itself)
   | var (x : String)
   | prim (op : Prim) (a b : Expr)
   | ite (c t e : Expr)
@@ -74,14 +82,71 @@ inductive Expr where
   | call (f : String) (args : List Expr)
   deriving Repr
 
+/-- the lambda list without its `&aux` part: required parameters, `&optional` and `&key` parameters
+    with their default *values* (slip stores these defaults unevaluated; generated ones are constants) -/
+structure Sig where
+  req : List String
+  opt : List (String × Val)
+  key : List (String × Val)
+  deriving DecidableEq, Repr
+
+/-- `&aux (x init)`: the init *forms* are code; they are evaluated on every call, in order, each one
+    seeing the parameters and the earlier `&aux` variables -/
 structure Lam where
-  params : List String
+  sig : Sig
+  aux : List (String × Expr)
   body : Expr
   deriving Repr
+
+/-- a definition with required parameters only -/
+def Lam.simple (ps : List String) (b : Expr) : Lam := ⟨⟨ps, [], []⟩, [], b⟩
 
 /-- name-keyed function table; the newest definition of a name is found first -/
 abbrev FunTable := List (String × Lam)
 abbrev Env := List (String × Val)
+
+/-! ### binding the argument values of a call (`Lambda.Call`) -/
+
+/-- `&optional` parameters take the remaining positional values one by one, then their defaults -/
+def bindOpt : List (String × Val) → List Val → Env × List Val
+  | [], vs => ([], vs)
+  | (x, d) :: os, [] => ((x, d) :: (bindOpt os []).1, [])
+  | (x, _) :: os, v :: vs => ((x, v) :: (bindOpt os vs).1, (bindOpt os vs).2)
+
+/-- what is left must be `:key value` pairs -/
+def kwPairs : List Val → Option (List (String × Val))
+  | [] => some []
+  | .kw k :: v :: rest => (kwPairs rest).map (fun ps => (k, v) :: ps)
+  | _ => none
+
+/-- every `&key` parameter gets the first value given for it, else its default; other keywords
+    bind nothing -/
+def bindKeys (ps : List (String × Val)) : List (String × Val) → Env
+  | [] => []
+  | (k, d) :: ks =>
+    (k, match ps.lookup k with
+        | some v => v
+        | none => d) :: bindKeys ps ks
+
+/-- `none`: wrong number of arguments or a malformed keyword part -/
+def bindArgs (sig : Sig) (vs : List Val) : Option Env :=
+  if vs.length < sig.req.length then none
+  else
+    let envR := sig.req.zip (vs.take sig.req.length)
+    let ob := bindOpt sig.opt (vs.drop sig.req.length)
+    match kwPairs ob.2 with
+    | none => none
+    | some ps =>
+      if sig.key.isEmpty && !ps.isEmpty then none
+      else some (bindKeys ps sig.key ++ ob.1 ++ envR)
+
+/-- evaluate the `&aux` init forms in order, extending the environment -/
+def evalAux {α : Type} (ev : Env → α → Out) : Env → List (String × α) → Except Out Env
+  | env, [] => .ok env
+  | env, (x, a) :: rest =>
+    match ev env a with
+    | .val v => evalAux ev ((x, v) :: env) rest
+    | o => .error o
 
 /-- evaluate a list of argument forms left to right; the first non-value outcome is the result -/
 def evalList {α : Type} (ev : α → Out) : List α → Except Out (List Val)
@@ -101,6 +166,7 @@ def eval (Φ : FunTable) : Nat → Env → Expr → Out
   | n+1, env, e =>
     match e with
     | .const k => .val (.int k)
+    | .kw k => .val (.kw k)
     | .var x =>
       match env.lookup x with
       | some v => .val v
@@ -128,20 +194,29 @@ def eval (Φ : FunTable) : Nat → Env → Expr → Out
         match evalList (fun a => eval Φ n env a) args with
         | .error o => o
         | .ok vs =>
-          if vs.length = lam.params.length then eval Φ n (lam.params.zip vs) lam.body
-          else .err (.arity f)
+          match bindArgs lam.sig vs with
+          | none => .err (.arity f)
+          | some env₀ =>
+            match evalAux (fun env' a => eval Φ n env' a) env₀ lam.aux with
+            | .error o => o
+            | .ok env₁ => eval Φ n env₁ lam.body
 
 /-- top-level forms of a history -/
 inductive Form where
-  | defun (f : String) (params : List String) (body : Expr)
+  | defun (f : String) (lam : Lam)
+  | undef (f : String)     -- `(fmakunbound 'f)`
   | expr (e : Expr)
   | again (j : Nat)        -- evaluate once more the j-th expression form evaluated so far
   deriving Repr
 
+/-- the table without any definition of `f` -/
+def undefTable (Φ : FunTable) (f : String) : FunTable := Φ.filter (fun p => p.1 != f)
+
 /-- `run`: the meaning of a history. `hist` = the expression forms evaluated so far. -/
 def run (fuel : Nat) : FunTable → List Expr → List Form → List Out
   | _, _, [] => []
-  | Φ, hist, .defun f ps b :: rest => .val (.sym f) :: run fuel ((f, ⟨ps, b⟩) :: Φ) hist rest
+  | Φ, hist, .defun f lam :: rest => .val (.sym f) :: run fuel ((f, lam) :: Φ) hist rest
+  | Φ, hist, .undef f :: rest => .val (.sym f) :: run fuel (undefTable Φ f) hist rest
   | Φ, hist, .expr e :: rest => eval Φ fuel [] e :: run fuel Φ (hist ++ [e]) rest
   | Φ, hist, .again j :: rest =>
     match hist[j]? with
@@ -158,6 +233,7 @@ inductive Ref where
 
 inductive Code where
   | const (n : Int)
+  | kw (k : String)
   | var (x : String)
   | prim (op : Prim) (a b : Code)
   | ite (c t e : Code)
@@ -166,7 +242,8 @@ inductive Code where
   deriving Repr
 
 structure CLam where
-  params : List String
+  sig : Sig
+  aux : List (String × Code)
   body : Code
   deriving Repr
 
@@ -192,6 +269,7 @@ def evalCode (σ : Store) : Nat → Env → Code → Out
   | n+1, env, c =>
     match c with
     | .const k => .val (.int k)
+    | .kw k => .val (.kw k)
     | .var x =>
       match env.lookup x with
       | some v => .val v
@@ -221,8 +299,12 @@ def evalCode (σ : Store) : Nat → Env → Code → Out
           match evalList (fun a => evalCode σ n env a) args with
           | .error o => o
           | .ok vs =>
-            if vs.length = lam.params.length then evalCode σ n (lam.params.zip vs) lam.body
-            else .err (.arity f)
+            match bindArgs lam.sig vs with
+            | none => .err (.arity f)
+            | some env₀ =>
+              match evalAux (fun env' a => evalCode σ n env' a) env₀ lam.aux with
+              | .error o => o
+              | .ok env₁ => evalCode σ n env₁ lam.body
         | _ => .err (.undefinedFunction f)      -- placeholder cell: `Undefined(name)`
 
 /-! ### compilation -/
@@ -231,6 +313,7 @@ mutual
 /-- the list form as code: every call site `late` (what `ListToFunc` starts from) -/
 def embed : Expr → Code
   | .const k => .const k
+  | .kw k => .kw k
   | .var x => .var x
   | .prim op a b => .prim op (embed a) (embed b)
   | .ite c t e => .ite (embed c) (embed t) (embed e)
@@ -246,6 +329,7 @@ mutual
     functions (`CompileArgs`), not into the sub-forms of special forms (`SkipEval`) -/
 def callees : Expr → List String
   | .const _ => []
+  | .kw _ => []
   | .var _ => []
   | .prim _ a b => callees a ++ callees b
   | .ite _ _ _ => []
@@ -265,6 +349,7 @@ mutual
 /-- resolve the call sites at compile positions to the cells the names have in `σ` -/
 def resolve (σ : Store) : Expr → Code
   | .const k => .const k
+  | .kw k => .kw k
   | .var x => .var x
   | .prim op a b => .prim op (resolve σ a) (resolve σ b)
   | .ite c t e => .ite (embed c) (embed t) (embed e)
@@ -288,20 +373,35 @@ def compile (σ : Store) (e : Expr) : Code × Store :=
   let σ' := declareAll σ (callees e)
   (resolve σ' e, σ')
 
+/-- the `&aux` init forms are kept as list forms: `Lambda.Call` converts them with `ListToFunc` on
+    every call (all call sites `late`) -/
+def embedAux : List (String × Expr) → List (String × Code)
+  | [] => []
+  | (x, a) :: rest => (x, embed a) :: embedAux rest
+
 /-- `defun`: compile the body (`Lambda.Compile`), then patch the name's cell in place
     (`Package.DefLambda`); a name without a cell gets one. -/
-def define (σ : Store) (f : String) (ps : List String) (b : Expr) : Store :=
-  let (cb, σ₁) := compile σ b
+def define (σ : Store) (f : String) (lam : Lam) : Store :=
+  let (cb, σ₁) := compile σ lam.body
   let σ₂ := declare σ₁ f
   match σ₂.cellOf f with
-  | some i => ⟨σ₂.names, σ₂.cells.set i (some ⟨ps, cb⟩)⟩
+  | some i => ⟨σ₂.names, σ₂.cells.set i (some ⟨lam.sig, embedAux lam.aux, cb⟩)⟩
   | none => σ₂
+
+/-- `fmakunbound`: the name keeps its cell (call sites compiled earlier point to it, a later `defun`
+    patches it); the cell becomes a placeholder again, so every call site — compiled before or after —
+    fails as an undefined function until the name is defined again -/
+def undefine (σ : Store) (f : String) : Store :=
+  match σ.cellOf f with
+  | some i => ⟨σ.names, σ.cells.set i none⟩
+  | none => σ
 
 mutual
 /-- the in-place caching done by an evaluation: every `late` call site whose name has a cell is
     replaced by the pointer to that cell (`f.Args[i] = ListToFunc(…)`, `EvalArg`) -/
 def cacheAll (σ : Store) : Code → Code
   | .const k => .const k
+  | .kw k => .kw k
   | .var x => .var x
   | .prim op a b => .prim op (cacheAll σ a) (cacheAll σ b)
   | .ite c t e => .ite (cacheAll σ c) (cacheAll σ t) (cacheAll σ e)
@@ -320,7 +420,8 @@ end
     rewritten by the caching of the previous evaluation). -/
 def runC (fuel : Nat) : Store → List Code → List Form → List Out
   | _, _, [] => []
-  | σ, objs, .defun f ps b :: rest => .val (.sym f) :: runC fuel (define σ f ps b) objs rest
+  | σ, objs, .defun f lam :: rest => .val (.sym f) :: runC fuel (define σ f lam) objs rest
+  | σ, objs, .undef f :: rest => .val (.sym f) :: runC fuel (undefine σ f) objs rest
   | σ, objs, .expr e :: rest =>
     let (c, σ') := compile σ e
     evalCode σ' fuel [] c :: runC fuel σ' (objs ++ [cacheAll σ' c]) rest
